@@ -240,8 +240,8 @@ fn decode_multi(bytes: &[u8]) -> MultiCase {
         for i in 0..8 {
             h[i] = bytes.get(1 + j * 8 + i).cloned().unwrap_or(0);
         }
-        // no fault plans here: isolation is about placement/accounting, C09 covers faults
-        h[5] = 0;
+        // h[5] may carry a fault plan: an arena whose requests the global allocator refuses is still "another arena being
+        // used", and its refusals must not leak into its neighbours (the ledger attributes plans and refusals per arena)
         headers.push(h);
     }
     let rest = bytes.get(1 + k * 8..).unwrap_or(&[]);
@@ -259,9 +259,9 @@ fn is_drop(op: &Op) -> bool {
     op.code == 0xff
 }
 fn skip_op(op: &Op) -> bool {
-    // plans and hand-over are exercised elsewhere
+    // hand-over is exercised by the threaded mode itself
     let c = op.code % NOPS;
-    !is_drop(op) && (c == 12 || c == 14)
+    !is_drop(op) && c == 14
 }
 
 struct SoloOut {
@@ -331,10 +331,11 @@ impl Engine for C20Engine {
     }
     fn strategy(&self, _tier: Tier) -> BoxedStrategy<Vec<u8>> {
         //            lay typ tw  sl  tf  str alc dea gro shr rst lim pln prb hov rrf
-        let weights: [u32; 16] = [24, 10, 6, 8, 4, 3, 8, 6, 6, 4, 4, 3, 0, 2, 0, 3];
+        let weights: [u32; 16] = [24, 10, 6, 8, 4, 3, 8, 6, 6, 4, 4, 3, 2, 2, 0, 3];
         let codes: Vec<u8> = weights.iter().enumerate().flat_map(|(i, w)| std::iter::repeat(i as u8).take(*w as usize)).chain(std::iter::repeat(0xffu8).take(3)).collect();
         let op = (0u8..4, proptest::sample::select(codes), any::<u8>(), prop_oneof![6 => 0u8..128, 2 => 128u8..224, 1 => 224u8..248], any::<u8>()).prop_map(|(a, c, x, y, z)| [a, c, x, y, z]);
-        let header = (0u8..5, any::<u8>(), prop_oneof![3 => 0u8..128, 1 => 128u8..224], any::<u8>(), 0u8..3, any::<u8>(), any::<u8>()).prop_map(|(m, ctor, c1, c2, pl, p1, p2)| [m, ctor, c1, c2, pl, 0, p1, p2]);
+        let header = (0u8..5, any::<u8>(), prop_oneof![3 => 0u8..128, 1 => 128u8..224], any::<u8>(), 0u8..3, any::<u8>(), any::<u8>(), 0u8..16)
+            .prop_map(|(m, ctor, c1, c2, pl, p1, p2, plan)| [m, ctor, c1, c2, pl, if plan < 3 { 10 + (p1 % 6) } else { 0 }, p1, p2]);
         let cross = proptest::collection::vec((0u8..10, 0u8..4, 0u8..4, any::<u8>()), 1..50).prop_map(|ops| {
             let mut v = vec![0x40u8];
             for (c, i, j, x) in ops {
